@@ -241,7 +241,7 @@ def gl22_table(repo: Repo):
         if not (isinstance(e, ast.Name) and e.id in env):
             raise AnalysisError(f"local_clifford_ops: ops_list entry {norm(e)} not a local matrix name")
         try:
-            v = consteval.fold(env[e.id])
+            v = consteval.fold(env[e.id], names=env)
         except consteval.NotConstant as ex:
             raise AnalysisError(f"local_clifford_ops: {e.id} is not a closed literal ({ex})")
         mats.append((e.id, [[int(x) % 2 for x in row] for row in v]))
